@@ -143,12 +143,14 @@ func ExtractAction(a of.Action) (*rec.Rec, error) {
 		r = rec.New("set_mpls_ttl").Set("ttl", uint64(x.MplsTtl))
 	case *of.ActionNwTtl:
 		r = rec.New("set_nw_ttl").Set("ttl", uint64(x.NwTtl))
-	case *of.ActionHeader:
+	case *of.ActionEmpty:
 		k := map[uint16]string{11: "copy_ttl_out", 12: "copy_ttl_in", 16: "dec_mpls_ttl", 27: "pop_pbb"}[x.Type]
 		if k == "" {
-			return nil, fmt.Errorf("bare ActionHeader with type %d", x.Type)
+			return nil, fmt.Errorf("ActionEmpty with type %d", x.Type)
 		}
 		r = rec.New(k)
+	case *of.ActionHeader:
+		return nil, fmt.Errorf("bare ActionHeader (type %d) in an action list", x.Type)
 	case *of.ActionSetField:
 		f, err := ExtractMatchField(&x.Field)
 		if err != nil {
